@@ -11,7 +11,7 @@ def Ev.isNew (k : κ) : Ev κ → Bool
 /-- the stream-closed callback or a termination callback for `k` -/
 def Ev.isEnd (k : κ) : Ev κ → Bool
   | .closed k' _ => decide (k' = k)
-  | .term k' _ _ _ _ => decide (k' = k)
+  | .term k' _ _ _ _ _ => decide (k' = k)
   | _ => false
 
 /-- a callback that presupposes a live connection `k`: data, out-of-order, closed -/
@@ -72,12 +72,12 @@ theorem scan_uses (k : κ) (es : List (Ev κ)) (h : ∀ e ∈ es, e.isNew k = fa
     exact ih
 
 /-- a list of termination callbacks ends exactly the connections it names -/
-theorem scan_terms (k : κ) (b : Bool) (es : List (Ev κ)) (h : ∀ e ∈ es, ∃ k' sid r c y, e = Ev.term k' sid r c y) :
+theorem scan_terms (k : κ) (b : Bool) (es : List (Ev κ)) (h : ∀ e ∈ es, ∃ k' sid r c y z, e = Ev.term k' sid r c y z) :
     liveAfter k b es = (b && !(es.any (fun e => decide (e.key = k)))) ∧ bracketed k b es = true := by
   induction es generalizing b with
   | nil => simp [liveAfter, bracketed]
   | cons e es ih =>
-    obtain ⟨k', sid, r, c, y, rfl⟩ := h _ List.mem_cons_self
+    obtain ⟨k', sid, r, c, y, z, rfl⟩ := h _ List.mem_cons_self
     have ih := fun b => ih b (fun e he => h e (List.mem_cons_of_mem _ he))
     simp only [liveAfter, bracketed, scan1, Ev.isNew, Ev.isEnd, Ev.isUse, Ev.key, Bool.false_eq_true, if_false,
       Bool.true_and, List.any_cons]
@@ -131,7 +131,7 @@ theorem touch_scan (cfg : Cfg) (F : Follower κ) (k : κ) (s : Stream) (p : Pkt)
   obtain ⟨h1, h2⟩ := scan_uses k _ hr
   simp only [liveAfter_append, bracketed_append, h1, h2, Bool.true_and]
   unfold erasedNow
-  by_cases hf : (after s p).isFinished = true <;> by_cases ho : overLimit cfg (after s p) = true <;>
+  by_cases hf : (after s p).isFinished = true <;> by_cases ho : terminated cfg (after s p) = true <;>
     simp [hf, ho, liveAfter, bracketed, scan1, liftEv, Ev.isNew, Ev.isEnd, Ev.isUse]
 
 theorem touch_keys (cfg : Cfg) (F : Follower κ) (k : κ) (s : Stream) (p : Pkt) : ∀ e ∈ (touch cfg F k s p).2, e.key = k := by
@@ -233,8 +233,8 @@ theorem maybeCleanup_scan (cfg : Cfg) (lt : κ → κ → Bool) (F : Follower κ
   · unfold cleanup
     simp only
     have hterm : ∀ e ∈ (sortEntries lt (F.streams.filter (expired cfg ts))).map
-        (fun e => Ev.term e.1 e.2.sid Reason.timeout e.2.chunks e.2.bytes), ∃ k' sid r c y, e = Ev.term k' sid r c y := by
-      intro e he; obtain ⟨x, _, rfl⟩ := List.mem_map.1 he; exact ⟨_, _, _, _, _, rfl⟩
+        (fun e => Ev.term e.1 e.2.sid Reason.timeout e.2.chunks e.2.bytes e.2.sacked), ∃ k' sid r c y z, e = Ev.term k' sid r c y z := by
+      intro e he; obtain ⟨x, _, rfl⟩ := List.mem_map.1 he; exact ⟨_, _, _, _, _, _, rfl⟩
     obtain ⟨h1, h2⟩ := scan_terms k (find? F.streams k).isSome _ hterm
     refine ⟨?_, h2⟩
     rw [h1, find?_filter hu]
@@ -245,14 +245,14 @@ theorem maybeCleanup_scan (cfg : Cfg) (lt : κ → κ → Bool) (F : Follower κ
       have hmem := mem_of_find? hf
       by_cases hx : expired cfg ts (k, s) = true
       · have : ((sortEntries lt (F.streams.filter (expired cfg ts))).map
-            (fun e => Ev.term e.1 e.2.sid Reason.timeout e.2.chunks e.2.bytes)).any (fun e => decide (e.key = k)) = true := by
+            (fun e => Ev.term e.1 e.2.sid Reason.timeout e.2.chunks e.2.bytes e.2.sacked)).any (fun e => decide (e.key = k)) = true := by
           rw [List.any_eq_true]
-          refine ⟨Ev.term k s.sid Reason.timeout s.chunks s.bytes, ?_, by simp [Ev.key]⟩
+          refine ⟨Ev.term k s.sid Reason.timeout s.chunks s.bytes s.sacked, ?_, by simp [Ev.key]⟩
           refine List.mem_map.2 ⟨(k, s), ?_, rfl⟩
           exact (sortEntries_perm lt _).mem_iff.2 (List.mem_filter.2 ⟨hmem, hx⟩)
         simp [this, hx]
       · have : ((sortEntries lt (F.streams.filter (expired cfg ts))).map
-            (fun e => Ev.term e.1 e.2.sid Reason.timeout e.2.chunks e.2.bytes)).any (fun e => decide (e.key = k)) = false := by
+            (fun e => Ev.term e.1 e.2.sid Reason.timeout e.2.chunks e.2.bytes e.2.sacked)).any (fun e => decide (e.key = k)) = false := by
           rw [List.any_eq_false]
           intro e he
           obtain ⟨x, hx1, rfl⟩ := List.mem_map.1 he
